@@ -59,6 +59,7 @@ def check(program: Program, run: Run) -> None:
     run.rule("R1 quote-wrap requires escape: inner text of every '...'-span is escaped(q), quote-free by kind, or a rendered slot")
     run.rule("R2 dialect escape coverage: every value position of a dialect builder constructs its wrapper via self._wrapper_cls (or the base wrapper consults ctx.dialect)")
     run.rule("R3 value wrappers emit one literal fragment on every path")
+    run.rule("R5 exact str: text placed in the literal under isinstance(value, str) is a call result (replace/isoformat/str) or Enum members were excluded first")
     run.rule("R4 escape once: no .replace(c, c*2) is applied to text that an identical .replace already went through on the same render path")
     fsk = function_skeletons(program)
     sinks = 0
@@ -67,20 +68,20 @@ def check(program: Program, run: Run) -> None:
         c = f.cls
         if any(k.name in EXEMPT_CLASSES for k in c.mro):
             continue
-        all_paths = list(paths(skv, limit=4000, opaque_leaf=True))
+        all_paths = list(paths(skv, limit=4000, opaque_leaf=True, with_conds=True))
         # quoting that happens inside a transformed string (e.g. quoted first, backslash-doubled afterwards)
-        todo = [p for flat in all_paths for p in flat if isinstance(p, Opaque)]
+        todo = [(p, cs) for flat, cs in all_paths for p in flat if isinstance(p, Opaque)]
         seen_op = set()
         while todo:
-            op = todo.pop()
+            op, cs0 = todo.pop()
             if id(op) in seen_op:
                 continue
             seen_op.add(id(op))
             for st in op.inner:
-                for flat in paths(st, limit=256, opaque_leaf=True):
-                    all_paths.append(flat)
-                    todo.extend(p for p in flat if isinstance(p, Opaque))
-        for flat in all_paths:
+                for flat, cs in paths(st, limit=256, opaque_leaf=True, with_conds=True):
+                    all_paths.append((flat, cs0 + cs))
+                    todo.extend((p, cs0 + cs) for p in flat if isinstance(p, Opaque))
+        for flat, pconds in all_paths:
             for i, j, q, kind in quoted_spans(flat):
                 if kind == "hole" and "secondary_quote_char" not in q:
                     continue
@@ -91,6 +92,18 @@ def check(program: Program, run: Run) -> None:
                     k = classify_inner(p)
                     if k in ("lit",):
                         continue
+                    vtxt = show(p.value if isinstance(p, Hole) else p, -20)
+                    ctxt = [show(cd, -30) for cd in pconds]
+                    def _guards(cd: str) -> bool:
+                        # not ((<quote> in <X>) ...) where the printed text is <X> or <X> passed through other replacements
+                        if not (cd.startswith("not") and ("secondary_quote_char" in cd or "\"'\"" in cd)):
+                            return False
+                        m = _re.search(r" in ([^()]+(?:\([^()]*\))?)\)", cd)
+                        return bool(m) and m.group(1).strip() in vtxt
+                    if k == "raw" and any(_guards(cd) for cd in ctxt):
+                        k = "guarded"   # `if q in value: value = value.replace(q, q*2)` -- on this path the text contains no quote
+                        if isinstance(p, Hole) and not isinstance(p.value, Str) and ".replace(" not in vtxt and any(cd.startswith(f"({vtxt} isinstance Builtin(name='str')") for cd in ctxt) and not any(cd.startswith("not") and f"{vtxt} isinstance" in cd and "Enum" in cd for cd in ctxt):
+                            k = "str-subclass"
                     src = getattr(p, "src", ()) or ()
                     fn = src[0] if src else f.qualname
                     chain = [x for x in (src[3] if len(src) > 3 else ()) if not x.startswith("utils.")]
@@ -102,7 +115,15 @@ def check(program: Program, run: Run) -> None:
                         continue
                     seen.add(site)
                     sinks += 1
-                    ok = k in ("escaped", "safe", "slot")
+                    ok = k in ("escaped", "safe", "slot", "guarded")
+                    if k == "str-subclass":
+                        sinks += 1
+                        run.ob("C05/R5 text reaching the literal is an exact str", f"{fn}: {what}", False, detail="raw attribute under isinstance(.., str) without Enum exclusion", where=f"{src[2]}:{src[1]}" if src else "")
+                        run.finding(f"C05/str-subclass-unnormalised:{fn}:{what}",
+                                    f"{fn} formats `{what}` into the literal untouched on the path where it needs no escaping: a member of a str-mixin Enum is a str instance, reaches this branch before any Enum unwrapping, "
+                                    "and str.format() prints Enum.__format__ (the member's name, not its value); the escaping path hides this because str.replace returns an exact str",
+                                    where=f"{src[2]}:{src[1]}" if src else "", rule="R5")
+                        continue
                     run.ob("C05/R1 text inside string quotes is escaped or quote-free", f"{fn}: {what}", ok, detail=k, where=f"{src[2]}:{src[1]}" if src else "")
                     if not ok:
                         kindtxt = "JSON text" if k == "json" else "text"
